@@ -4,7 +4,8 @@ T=/tmp/tryall-$$; rsync -a --exclude .git /repo/ $T/; (cd $T && patch -p1 -s < $
 caught=""
 for p in $(jq -r '.checks[].property_id' /verif/MANIFEST.json); do
   out=$(${VCHECK:-/verif/bin/vcheck} -property $p -no-evidence -repo $T 2>&1); rc=$?
-  if [ $rc -ne 0 ]; then caught="$caught $p"; echo "$out" | grep -B2 "^VIOLATION" | grep -v "^VIOLATION\|^--" | head -4 | cut -c1-${2:-230}; fi
+  if [ $rc -ne 0 ]; then caught="$caught $p"; echo "$out" | grep -B2 "^VIOLATION" | grep -v "^VIOLATION\|^--" | head -4 | cut -c1-${2:-230}
+    echo "$out" | grep -q "^VIOLATION" || { echo "!! $p rc=$rc without a VIOLATION line:"; echo "$out" | tail -3 | cut -c1-300; }; fi
 done
 echo "caught_by:${caught:- NONE}"
 rm -rf $T
